@@ -716,3 +716,237 @@ Proof.
   split; [exact M6|]. split; [exact M7|]. split; [lia|].
   destruct M9 as [M9|[M9 M10]]; [left; exact M9|right; split; [exact M9|lia]].
 Qed.
+
+(* ------------------------------------------------------------------ the invariant with its level-counter budget *)
+(* G is a ghost bound on the level counter: every flush / merge_all adds at most 1 *)
+Definition Inv (c : coo) (G : Z) : Prop :=
+  stack_ok c /\ cnt (mn c) (depth c) <= G /\ (depth c = 0 \/ 2 ^ (depth c - 1) <= G).
+
+Lemma Inv_mono c G G' : G <= G' -> Inv c G -> Inv c G'.
+Proof. intros H (S & C & D). split; [exact S|]. split; [lia|]. destruct D; [left; assumption|right; lia]. Qed.
+
+Lemma Inv_room c G : Inv c G -> G + 1 < 2 ^ (zlen (mn c) - 1) -> cnt (mn c) (depth c) + 1 < 2 ^ (zlen (mn c) - 1).
+Proof. intros (_ & C & _) H. lia. Qed.
+
+Lemma op_step c c' G : Inv c G -> op_post c c' -> Inv c' (G + 1).
+Proof.
+  intros (S & C & D) (S' & _ & _ & _ & _ & _ & C' & D').
+  split; [exact S'|]. split; [lia|].
+  destruct D' as [E|[E1 E2]].
+  - rewrite E. destruct D; [left; assumption|right; lia].
+  - right. rewrite E1. replace (depth c + 1 - 1) with (depth c) by lia. lia.
+Qed.
+
+(* ------------------------------------------------------------------ coo_increase_mem *)
+Lemma nthZ_extend0 l n j : nthZ (extend l 0 n) j = nthZ l j.
+Proof.
+  unfold extend. destruct (Z_lt_le_dec j 0); [rewrite !nthZ_neg by lia; reflexivity|].
+  destruct (Z_lt_le_dec j (zlen l)); [apply nthZ_app_l; lia|].
+  rewrite nthZ_app_r by lia. rewrite (nthZ_beyond l) by lia.
+  destruct (Z_lt_le_dec (j - zlen l) (Z.of_nat (Z.to_nat (n - zlen l)))).
+  - apply nthZ_repeat. lia.
+  - apply nthZ_beyond. zl. lia.
+Qed.
+
+Lemma zlen_extend {A} (l : list A) z n : zlen (extend l z n) = Z.max (zlen l) n.
+Proof. unfold extend. zl. pose proof (zlen_nonneg l). lia. Qed.
+
+Lemma round_half_even_ge a : 0 <= a -> a / 2 <= round_half_even_div2 a.
+Proof.
+  intros H. unfold round_half_even_div2.
+  destruct (a mod 2 =? 0); [lia|]. destruct ((a / 2) mod 2 =? 0); lia.
+Qed.
+
+Lemma grow_inv limit c G : Inv c G -> ind c <= cap c ->
+  Inv (coo_increase_mem limit c) G /\
+  ind (coo_increase_mem limit c) = ind c /\
+  cap (coo_increase_mem limit c) = Z.max (cap c) (grow_size limit (cap c)) /\
+  zlen (mn c) <= zlen (mn (coo_increase_mem limit c)) /\
+  live (coo_increase_mem limit c) = live c.
+Proof.
+  intros ([Hd Hz Hch Hi Hk] & C & D) Hic.
+  assert (E : forall j, nthZ (mn (coo_increase_mem limit c)) j = nthZ (mn c) j)
+    by (intros; apply nthZ_extend0).
+  assert (L : live (coo_increase_mem limit c) = live c).
+  { unfold live, coo_increase_mem, extend; simpl. rewrite firstn_app.
+    replace (Z.to_nat (ind c) - length (buf c))%nat with 0%nat by (unfold cap, zlen in Hic; lia).
+    simpl. apply app_nil_r. }
+  split; [split; [constructor|]|].
+  - unfold coo_increase_mem; simpl. rewrite zlen_extend. lia.
+  - intros j Hj. rewrite E. apply Hz. exact Hj.
+  - intros j Hj. rewrite !E. apply Hch. exact Hj.
+  - rewrite E. exact Hi.
+  - rewrite L. exact Hk.
+  - split; [|exact D]. unfold cnt in *. simpl depth.
+    rewrite (cnt_range_ext _ (mn c)); [exact C|]. intros; apply E.
+  - split; [reflexivity|]. split; [unfold cap, coo_increase_mem; simpl; apply zlen_extend|].
+    split; [unfold coo_increase_mem; simpl; rewrite zlen_extend; lia|exact L].
+Qed.
+
+(* ------------------------------------------------------------------ flush_tail (the body of both ifs of coo_append) *)
+Lemma setZ_okA {A} s (l : list A) i v : 0 <= i < zlen l -> setZ s l i v = Ok (upd l (Z.to_nat i) v).
+Proof.
+  intros H. unfold setZ. replace ((0 <=? i) && (i <? zlen l)) with true; [reflexivity|].
+  symmetry. apply andb_true_iff. split; [apply Z.leb_le|apply Z.ltb_lt]; lia.
+Qed.
+
+Lemma pow2_mono a b : 0 <= a <= b -> 2 ^ a <= 2 ^ b.
+Proof. intros. apply Z.pow_le_mono_r; lia. Qed.
+
+Lemma flush_tail_ok limit c G :
+  1 <= limit -> Inv c G -> ind c <= cap c - 1 -> 20 <= cap c -> G + 2 < 2 ^ (zlen (mn c) - 1) ->
+  exists c',
+    flush_tail limit c = Ok c' /\ Inv c' (G + 2) /\ ind c' <= cap c' - 2 /\ 20 <= cap c' /\
+    zlen (mn c) <= zlen (mn c') /\ (forall k, sumby (live c') k = sumby (live c) k).
+Proof.
+  intros Hl HI Hic Hcap HG.
+  destruct (csd_ok c) as (c1 & E1 & P1); [apply HI|lia|apply (Inv_room c G HI); lia|].
+  pose proof (op_step c c1 G HI P1) as I1.
+  destruct P1 as (S1 & Q1 & Q2 & Q3 & Q4 & Q5 & _).
+  unfold flush_tail. rewrite E1. cbn [bind].
+  assert (Hm1 : 1 <= zlen (mn c1)) by (destruct S1 as [[? ?] _ _ _ _]; lia).
+  rewrite (getZ_nthZ _ (mn c1) 0) by lia. cbn [bind]. rewrite Q4, Q1.
+  destruct (cap c - ind c1 <=? limit) eqn:T.
+  - destruct (ma_ok c1) as (c2 & E2 & P2); [exact S1|lia|apply (Inv_room c1 (G + 1) I1); rewrite Q2; lia|].
+    pose proof (op_step c1 c2 (G + 1) I1 P2) as I2. replace (G + 1 + 1) with (G + 2) in I2 by lia.
+    destruct P2 as (S2 & R1 & R2 & R3 & R4 & R5 & _).
+    rewrite E2. cbn [bind].
+    destruct (20 * ind c2 >=? 19 * cap c2) eqn:T2.
+    + destruct (grow_inv limit c2 (G + 2) I2) as (I3 & G1 & G2 & G3 & G4); [lia|].
+      eexists. split; [reflexivity|]. split; [exact I3|].
+      assert (Hgs : cap c + 2 <= grow_size limit (cap c2)).
+      { unfold grow_size. rewrite R1, Q1. pose proof (round_half_even_ge (3 * cap c) ltac:(lia)).
+        assert (cap c + 2 <= 3 * cap c / 2) by (apply Z.div_le_lower_bound; lia). lia. }
+      rewrite G1, G2, G4. split; [lia|]. split; [lia|]. split; [lia|].
+      intros k. rewrite R5, Q5. reflexivity.
+    + eexists. split; [reflexivity|]. split; [exact I2|].
+      rewrite Z.geb_leb in T2. apply Z.leb_gt in T2.
+      split; [lia|]. split; [lia|]. split; [lia|]. intros k. rewrite R5, Q5. reflexivity.
+  - apply Z.leb_gt in T. eexists. split; [reflexivity|].
+    split; [apply (Inv_mono c1 (G + 1)); [lia|exact I1]|].
+    split; [lia|]. split; [lia|]. split; [lia|]. exact Q5.
+Qed.
+
+(* ------------------------------------------------------------------ coo_append *)
+Lemma live_append c ev : 0 <= ind c < cap c ->
+  firstn (Z.to_nat (ind c + 1)) (upd (buf c) (Z.to_nat (ind c)) ev) = live c ++ [ev].
+Proof.
+  intros H. unfold cap in H. destruct (split_at (buf c) (ind c) H) as [x Hx].
+  unfold live.
+  assert (LP : zlen (firstn (Z.to_nat (ind c)) (buf c)) = ind c) by (apply zlen_firstn; lia).
+  remember (firstn (Z.to_nat (ind c)) (buf c)) as P. remember (skipn (S (Z.to_nat (ind c))) (buf c)) as T.
+  clear HeqP HeqT. rewrite Hx.
+  replace (Z.to_nat (ind c)) with (length P) by (unfold zlen in LP; lia).
+  rewrite upd_mid. replace (P ++ ev :: T) with ((P ++ [ev]) ++ T) by (rewrite <- app_assoc; reflexivity).
+  apply firstnZ_app. zl. lia.
+Qed.
+
+Lemma coo_append_ok limit c G ev :
+  1 <= limit -> Inv c G -> ind c <= cap c - 2 -> 20 <= cap c -> 0 <= e_key ev ->
+  G + 2 < 2 ^ (zlen (mn c) - 1) ->
+  exists c',
+    coo_append limit c ev = Ok c' /\ Inv c' (G + 2) /\ ind c' <= cap c' - 2 /\ 20 <= cap c' /\
+    zlen (mn c) <= zlen (mn c') /\ (forall k, sumby (live c') k = sumby (live c) k + sumby [ev] k).
+Proof.
+  intros Hl HI Hic Hcap Hev HG.
+  destruct HI as ([Hd Hz Hch Hi Hk] & C & D).
+  pose proof (Z.abs_nonneg (nthZ (mn c) 0)) as Habs.
+  unfold coo_append. rewrite setZ_okA by (unfold cap in *; lia). cbn [bind].
+  set (c1 := {| buf := upd (buf c) (Z.to_nat (ind c)) ev; ind := ind c + 1; mn := mn c; depth := depth c |}).
+  assert (L1 : live c1 = live c ++ [ev]) by (apply live_append; lia).
+  assert (I1 : Inv c1 G).
+  { split; [constructor; simpl; auto; try lia|split; [exact C|exact D]].
+    rewrite L1. apply keys_nonneg_app. split; [exact Hk|]. constructor; [exact Hev|constructor]. }
+  assert (K1 : cap c1 = cap c) by (unfold cap, c1; simpl; apply zlen_upd).
+  assert (S1 : forall k, sumby (live c1) k = sumby (live c) k + sumby [ev] k)
+    by (intros k; rewrite L1; apply sumby_app).
+  rewrite (getZ_nthZ _ (mn c1) 0) by (simpl; lia). cbn [bind].
+  destruct (ind c1 - Z.abs (nthZ (mn c1) 0) >=? limit).
+  - destruct (flush_tail_ok limit c1 G) as (c2 & E2 & I2 & J2 & C2 & M2 & U2); auto; try (rewrite ?K1; simpl; lia).
+    rewrite E2. cbn [bind].
+    replace (ind c2 =? cap c2 - 1) with false by (symmetry; apply Z.eqb_neq; lia).
+    exists c2. split; [reflexivity|]. split; [exact I2|]. split; [exact J2|]. split; [exact C2|].
+    split; [exact M2|]. intros k. rewrite U2. apply S1.
+  - cbn [bind]. destruct (ind c1 =? cap c1 - 1) eqn:T.
+    + destruct (flush_tail_ok limit c1 G) as (c2 & E2 & I2 & J2 & C2 & M2 & U2); auto; try (rewrite ?K1; simpl; lia).
+      exists c2. split; [exact E2|]. split; [exact I2|]. split; [exact J2|]. split; [exact C2|].
+      split; [exact M2|]. intros k. rewrite U2. apply S1.
+    + apply Z.eqb_neq in T. exists c1. split; [reflexivity|].
+      split; [apply (Inv_mono c1 G); [lia|exact I1]|].
+      rewrite K1 in *. simpl ind in *. split; [lia|]. split; [lia|]. split; [simpl; lia|exact S1].
+Qed.
+
+(* ------------------------------------------------------------------ the event list *)
+Lemma appends_ok limit : forall evs c G,
+  1 <= limit -> Inv c G -> ind c <= cap c - 2 -> 20 <= cap c -> keys_nonneg evs ->
+  G + 2 * zlen evs < 2 ^ (zlen (mn c) - 1) ->
+  exists c',
+    appends limit c evs = Ok c' /\ Inv c' (G + 2 * zlen evs) /\ ind c' <= cap c' - 2 /\ 20 <= cap c' /\
+    zlen (mn c) <= zlen (mn c') /\ (forall k, sumby (live c') k = sumby (live c) k + sumby evs k).
+Proof.
+  induction evs as [|ev t IH]; intros c G Hl HI Hic Hcap Hk HG.
+  - exists c. replace (G + 2 * zlen (@nil entry)) with G by (zl; lia).
+    split; [reflexivity|]. split; [exact HI|]. split; [exact Hic|]. split; [exact Hcap|]. split; [lia|].
+    intros k. simpl. lia.
+  - zl. inversion Hk as [|? ? Hev Ht]; subst. pose proof (zlen_nonneg t) as Lt.
+    assert (Hz : 1 <= zlen (mn c)) by (destruct HI as ([[? ?] _ _ _ _] & _); lia).
+    destruct (coo_append_ok limit c G ev) as (c1 & E1 & I1 & J1 & C1 & M1 & U1); auto; try lia.
+    simpl appends. rewrite E1. cbn [bind].
+    destruct (IH c1 (G + 2)) as (c' & E' & I' & J' & C' & M' & U'); auto.
+    { pose proof (pow2_mono (zlen (mn c) - 1) (zlen (mn c1) - 1) ltac:(lia)). lia. }
+    exists c'. split; [exact E'|].
+    replace (G + 2 * (1 + zlen t)) with (G + 2 + 2 * zlen t) by lia.
+    split; [exact I'|]. split; [exact J'|]. split; [exact C'|]. split; [lia|].
+    intros k. rewrite U', U1. simpl. lia.
+Qed.
+
+Lemma nthZ_repeat0 n j : nthZ (repeat 0 n) j = 0.
+Proof.
+  destruct (Z_lt_le_dec j 0); [apply nthZ_neg; lia|].
+  destruct (Z_lt_le_dec j (Z.of_nat n)); [apply nthZ_repeat; lia|apply nthZ_beyond; zl; lia].
+Qed.
+
+Lemma init_inv n mlen : 0 <= n -> 1 <= mlen -> Inv (init n mlen) 0.
+Proof.
+  intros Hn Hm. split; [constructor; simpl|split; [reflexivity|left; reflexivity]].
+  - zl. lia.
+  - intros j _. apply nthZ_repeat0.
+  - intros j Hj. lia.
+  - rewrite nthZ_repeat0. simpl. lia.
+  - constructor.
+Qed.
+
+Lemma finish_ok c G :
+  Inv c G -> ind c <= cap c - 1 -> G + 2 < 2 ^ (zlen (mn c) - 1) ->
+  exists c', finish c = Ok c' /\ stack_ok c' /\ (forall k, sumby (live c') k = sumby (live c) k).
+Proof.
+  intros HI Hic HG.
+  destruct (csd_ok c) as (c1 & E1 & P1); [apply HI|lia|apply (Inv_room c G HI); lia|].
+  pose proof (op_step c c1 G HI P1) as I1.
+  destruct P1 as (S1 & Q1 & Q2 & Q3 & Q4 & Q5 & _).
+  destruct (ma_ok c1) as (c2 & E2 & P2); [exact S1|lia|apply (Inv_room c1 (G + 1) I1); rewrite Q2; lia|].
+  destruct P2 as (S2 & R1 & R2 & R3 & R4 & R5 & _).
+  exists c2. unfold finish. rewrite E1. cbn [bind]. split; [exact E2|]. split; [exact S2|].
+  intros k. rewrite R5, Q5. reflexivity.
+Qed.
+
+(* no fault and exact sum by key, for every threshold >= 1, every capacity >= 20 and every event list that the
+   min stack can count *)
+Theorem run_total limit n mlen evs :
+  1 <= limit -> 20 <= n -> keys_nonneg evs -> 2 * zlen evs + 2 < 2 ^ (mlen - 1) ->
+  exists s, run limit n mlen evs = Ok s /\ (forall k, denote s k = sumby evs k) /\ keys_nonneg (live s).
+Proof.
+  intros Hl Hn Hk HG.
+  assert (Hm : 1 <= mlen).
+  { destruct (Z_lt_le_dec mlen 1); [|lia]. rewrite Z.pow_neg_r in HG by lia. pose proof (zlen_nonneg evs). lia. }
+  pose proof (init_inv n mlen ltac:(lia) Hm) as I0.
+  assert (Z0 : zlen (mn (init n mlen)) = mlen) by (simpl; zl; lia).
+  assert (C0 : cap (init n mlen) = n) by (unfold cap; simpl; zl; lia).
+  destruct (appends_ok limit evs (init n mlen) 0) as (c & E & I & J & C & M & U); auto;
+    try (rewrite ?C0, ?Z0; simpl ind; lia).
+  destruct (finish_ok c (0 + 2 * zlen evs)) as (s & Ef & Sf & Uf); [exact I|lia| |].
+  { pose proof (pow2_mono (mlen - 1) (zlen (mn c) - 1) ltac:(lia)). lia. }
+  exists s. unfold run. rewrite E. cbn [bind]. split; [exact Ef|]. split.
+  - intros k. unfold denote. rewrite Uf, U. simpl. lia.
+  - apply Sf.
+Qed.
